@@ -294,3 +294,110 @@ def check_empty_word_guard(ctx, rep, f, rule='R-CNF'):
                 rep.holds(rule, f, e, 'the table is indexed with n - 1 only for a non-empty word')
             else:
                 rep.violates(rule, f, e, 'for the empty word the table is indexed with X[0, -1]: the empty-word case must be decided before')
+
+
+# ---- extracted model of the CNF recogniser ----------------------------------------------------------------------------------
+
+class _Obj:
+    def __init__(self, cls, **kw):
+        self.cls = cls
+        self.__dict__.update(kw)
+
+
+def _mini_eval(ctx, cls_info, e, env, depth=0):
+    """concrete evaluation of the tiny predicate methods of Alternative on tagged symbol lists (the analyser's own
+    finite model: symbols are ('T',) or ('V',))"""
+    if depth > 6:
+        raise Unsupported('depth')
+    if isinstance(e, ast.Constant):
+        return e.value
+    if isinstance(e, ast.Name):
+        if e.id in env:
+            return env[e.id]
+        raise Unsupported('name ' + e.id)
+    if isinstance(e, ast.Attribute):
+        base = _mini_eval(ctx, cls_info, e.value, env, depth)
+        if isinstance(base, _Obj) and hasattr(base, e.attr):
+            return getattr(base, e.attr)
+        raise Unsupported('attribute ' + e.attr)
+    if isinstance(e, ast.BoolOp):
+        if isinstance(e.op, ast.And):
+            r = True
+            for v in e.values:
+                r = _mini_eval(ctx, cls_info, v, env, depth)
+                if not r:
+                    return r
+            return r
+        r = False
+        for v in e.values:
+            r = _mini_eval(ctx, cls_info, v, env, depth)
+            if r:
+                return r
+        return r
+    if isinstance(e, ast.UnaryOp) and isinstance(e.op, ast.Not):
+        return not _mini_eval(ctx, cls_info, e.operand, env, depth)
+    if isinstance(e, ast.Compare) and len(e.ops) == 1:
+        a = _mini_eval(ctx, cls_info, e.left, env, depth)
+        b = _mini_eval(ctx, cls_info, e.comparators[0], env, depth)
+        op = type(e.ops[0])
+        return {ast.Eq: a == b, ast.NotEq: a != b, ast.Lt: a < b, ast.LtE: a <= b, ast.Gt: a > b, ast.GtE: a >= b}[op]
+    if isinstance(e, ast.Subscript):
+        base = _mini_eval(ctx, cls_info, e.value, env, depth)
+        idx = _mini_eval(ctx, cls_info, e.slice, env, depth)
+        return base[idx]
+    if isinstance(e, (ast.ListComp, ast.SetComp, ast.GeneratorExp)) and len(e.generators) == 1:
+        g = e.generators[0]
+        out = []
+        for x in _mini_eval(ctx, cls_info, g.iter, env, depth):
+            env2 = dict(env)
+            env2[g.target.id] = x
+            if all(_mini_eval(ctx, cls_info, c, env2, depth) for c in g.ifs):
+                out.append(_mini_eval(ctx, cls_info, e.elt, env2, depth))
+        return out
+    if isinstance(e, ast.Call):
+        fn = e.func
+        if isinstance(fn, ast.Name):
+            if fn.id == 'len':
+                return len(_mini_eval(ctx, cls_info, e.args[0], env, depth))
+            if fn.id == 'isinstance':
+                v = _mini_eval(ctx, cls_info, e.args[0], env, depth)
+                k = e.args[1]
+                names = [u(x) for x in (k.elts if isinstance(k, ast.Tuple) else [k])]
+                return any((n == 'Terminal' and v == ('T',)) or (n == 'Variable' and v == ('V',)) for n in names)
+            if fn.id in ('set', 'list', 'all', 'any', 'bool'):
+                v = _mini_eval(ctx, cls_info, e.args[0], env, depth) if e.args else []
+                return {'set': lambda x: list(x), 'list': lambda x: list(x), 'all': all, 'any': any, 'bool': bool}[fn.id](v)
+        if isinstance(fn, ast.Attribute) and isinstance(fn.value, ast.Name) and fn.value.id == 'self' and fn.attr in cls_info.methods:
+            m = cls_info.methods[fn.attr]
+            rets = [r for r in walk_no_nested(m.node) if isinstance(r, ast.Return)]
+            if len(rets) != 1:
+                raise Unsupported('method ' + fn.attr)
+            return _mini_eval(ctx, cls_info, rets[0].value, {'self': env['self']}, depth + 1)
+    raise Unsupported(type(e).__name__ + ' ' + u(e)[:40])
+
+
+def check_alternative_recogniser(ctx, rep, rule='R-CNF.shape'):
+    """Alternative.is_chomsky as a truth table over all right-hand sides of length <= 3 made of terminals / variables:
+    true exactly for the empty side, a single terminal, and two variables"""
+    import itertools
+    cls = ctx.prog.cls('cfg.Alternative')
+    m = cls.methods.get('is_chomsky')
+    rets = [r for r in walk_no_nested(m.node) if isinstance(r, ast.Return)] if m else []
+    if len(rets) != 1:
+        rep.undecided(rule, 'cfg.py:Alternative.is_chomsky', 'def is_chomsky', 'single return expression expected')
+        return
+    try:
+        for k in range(0, 4):
+            for combo in itertools.product([('T',), ('V',)], repeat=k):
+                obj = _Obj('Alternative', symbols=list(combo))
+                got = bool(_mini_eval(ctx, cls, rets[0].value, {'self': obj}))
+                want = (k == 0) or (k == 1 and combo[0] == ('T',)) or (k == 2 and combo == (('V',), ('V',)))
+                if got != want:
+                    shape = ' '.join('terminal' if c == ('T',) else 'variable' for c in combo) or 'empty'
+                    rep.violates(rule, m, rets[0], 'a right-hand side of the shape [{}] is {} as Chomsky normal form but must be {}: the conversion is skipped (or forced) for such grammars and the CYK table ignores the rule'.format(
+                        shape, 'accepted' if got else 'rejected', 'accepted' if want else 'rejected'))
+                    return
+    except Unsupported as e:
+        rep.undecided(rule, m, rets[0], 'recogniser outside the fragment: {}'.format(e))
+        return
+    rep.holds(rule, m, rets[0], 'truth table over all 15 right-hand-side shapes of length <= 3: accepted exactly the empty side, one terminal, two variables')
